@@ -39,7 +39,7 @@ def corpus(work, tier, seed):
             cases.append(("s%d:%s" % (i, tag), m))
     for tag, m in mutgen.type_table_full(r):
         cases.append((tag, m))
-    cases += [("b:%s:%d" % (tag, i), m) for i, (tag, m) in enumerate(mutgen.bytelevel(skel, r, 1500 if tier == "quick" else 60000))]
+    cases += [("b:%s:%d" % (tag, i), m) for i, (tag, m) in enumerate(mutgen.bytelevel(skel, r, 1500 if tier == "quick" else 15000))]
     if tier == "quick":
         # the structured classes are many: keep every class for 3 seed-rotated skeletons, a sample for the rest
         keep = []
